@@ -13,6 +13,7 @@ mod images;
 mod model;
 mod ops;
 mod pinwin;
+mod pvote;
 mod props;
 mod refcodec;
 mod runner;
